@@ -272,7 +272,7 @@ class FinalizeVariablesInit(Contract):
     name = f"{SB}.finalize_variables_init"
     prop = ("C12",)
     top_level = True
-    cases = tuple((u0, u1) for u0 in ("day", "month", "year") for u1 in ("day", "month", "year"))
+    cases = tuple((u0, u1) for u0 in ("day", "month", "year") for u1 in ("day", "month", "year")) + (("month", "replicated-along-an-axis"),)
     descr = ("every buffered (period, array) of a variable of the population is handed to the variable's holder exactly once, with the "
              "buffered array, and a period that is shorter - smaller (unit weight, size) - is handed over before a longer one, so that "
              "values declared on longer periods only fill what nothing more specific declared")
@@ -282,12 +282,15 @@ class FinalizeVariablesInit(Contract):
         from . import c17_storage as S
         from .c04_periods import sym_period
         R = I.resolve_qualified
-        N = ctx.fresh_int("count")
+        replicated = case[1] == "replicated-along-an-axis"
+        if replicated:
+            case = (case[0], "year")
+        N = ctx.fresh_int("count") if not replicated else z3.IntVal(3)
         ctx.assume(N >= 1)
         ps = [sym_period(I, ctx, case[0], "p0"), sym_period(I, ctx, case[1], "p1")]
         ctx.assume(z3.Not(B._zb(B.eq_formula(I, ctx, ps[0], ps[1]))))
         F = [z3.Function(ctx.fresh_name("VALS%d" % k), z3.IntSort(), z3.RealSort()) for k in range(2)]
-        arrs = [nparr.NArr(N, lambda j, f=f: Sym(f(B._z(j))), "float", "buffered%d" % k) for k, f in enumerate(F)]
+        arrs = [nparr.NArr(N if not replicated else 3, lambda j, f=f: Sym(f(B._z(j))), "float", "buffered%d" % k) for k, f in enumerate(F)]
         from .c19_dump import FileNameToken
         tk = FileNameToken()
         toks = [tk.outcomes(I, ctx, {"self": p}, None)[1] for p in ps]
@@ -299,10 +302,12 @@ class FinalizeVariablesInit(Contract):
         pop = Obj(R("openfisca_core.populations.population.Population"), {"entity": ent, "count": 0, "ids": ListVal([])}, label="population")
         ids = ListVal(["ids"])
         builder = Obj(R(SB), {"input_buffer": dict_of([("v", buf)]), "entity_counts": dict_of([("persons", B.wrap(N))]),
-                              "entity_ids": dict_of([("persons", ids)]), "axes_entity_counts": DictVal(), "axes_entity_ids": DictVal(),
+                              "entity_ids": dict_of([("persons", ids)]), "axes_entity_counts": dict_of([("persons", 6)]) if replicated else DictVal(),
+                              "axes_entity_ids": DictVal(),
                               "memberships": DictVal(), "roles": DictVal(), "axes_memberships": DictVal(), "axes_roles": DictVal()}, label="builder")
         ctx.ghost["holder"] = holder
-        return {"self": builder, "population": pop, "__ps": ps, "__arrs": arrs, "__F": F, "__N": N, "__holder": holder, "__ids": ids, "__case": case}
+        return {"self": builder, "population": pop, "__ps": ps, "__arrs": arrs, "__F": F, "__N": N, "__holder": holder, "__ids": ids, "__case": case,
+                "__replicated": replicated}
 
     @staticmethod
     def local_contracts():
@@ -320,7 +325,9 @@ class FinalizeVariablesInit(Contract):
         if out[0] != "return":
             return [("no-exception", False)]
         calls = log_of(ctx, "set_input")
-        res = [("population-gets-its-count-and-ids", B._zb(B.eq_formula(I, ctx, pop.fields["count"], B.wrap(N))) if not isinstance(pop.fields["count"], int) else False),
+        rep = a.get("__replicated")
+        res = [("population-gets-its-count-and-ids", (B._zb(B.eq_formula(I, ctx, pop.fields["count"], B.wrap(N))) if not isinstance(pop.fields["count"], int) else False)
+                if not rep else pop.fields["count"] == 6),
                ("population-gets-the-declared-ids", pop.fields["ids"] is a["__ids"]),
                ("one-hand-over-per-buffered-period", len(calls) == 2 and all(c["args"]["self"] is a["__holder"] for c in calls))]
         if len(calls) != 2:
@@ -332,6 +339,11 @@ class FinalizeVariablesInit(Contract):
             for m in range(2):
                 hit = B._zb(B.eq_formula(I, ctx, c["args"]["period"], ps[m]))
                 arr = c["args"]["array"]
+                if rep:
+                    # replication along an axis: the copies one after the other (expanding = concatenating the copies)
+                    res.append((f"hand-over-{k + 1}-carries-the-buffered-array-once-per-copy-in-a-row",
+                                z3.Implies(z3.And(hit, j >= 0, j < 6), z3.And(B._z(arr.n) == 6, B.zreal(arr.elem(j)) == F[m](j % 3)))))
+                    continue
                 res.append((f"hand-over-{k + 1}-carries-the-array-buffered-for-its-period",
                             z3.Implies(z3.And(hit, rng), z3.And(B._z(arr.n) == N, B.zreal(arr.elem(j)) == F[m](j)))))
         res.append(("both-periods-are-handed-over", z3.Or(z3.And(first_is_p0, B._zb(B.eq_formula(I, ctx, calls[1]["args"]["period"], ps[1]))),
@@ -371,8 +383,8 @@ def _situations(tier):
     a household; each person appears in at most two slots so that duplicates and unknown persons occur"""
     import itertools
     out = []
-    pools = (["a"], ["a", "b"], ["h1", "b"], ["a", "b", "c"], ["h1", "h2", "c"]) if tier == "quick" else \
-        (["a"], ["a", "b"], ["h1", "b"], ["b", "h1"], ["a", "b", "c"], ["h1", "h2", "c"], ["c", "h2", "h1"])
+    pools = (["a"], ["a", "b"], ["h1", "b"], ["a", "b", "c"], ["h1", "h2", "c"], ["a", "b", "c", "d"]) if tier == "quick" else \
+        (["a"], ["a", "b"], ["h1", "b"], ["b", "h1"], ["a", "b", "c"], ["h1", "h2", "c"], ["c", "h2", "h1"], ["a", "b", "c", "d"])
     for persons in pools:
         cand = persons + ["nobody"]
         for nh in (0, 1, 2):
@@ -380,7 +392,10 @@ def _situations(tier):
             slots = [(h, r) for h in hids for r in ("parents", "children")]
             lists = [[]] + [[x] for x in cand] + [[x, y] for x in cand for y in cand if x != y or x == persons[0]]
             lists3 = lists + [[persons[0], persons[-1], "nobody"][:3]] if len(persons) >= 1 else lists
-            combos = itertools.product(*[(lists3 if r == "parents" else lists[: 1 + len(cand)]) for _, r in slots])
+            if len(persons) >= 3:
+                lists3 = lists3 + [persons[:3]]                       # three declared persons as parents: one too many
+            kids = lists[: 1 + len(cand)] + ([persons[:3], persons[1:4]] if len(persons) >= 3 else [])   # up to three children: allowed
+            combos = itertools.product(*[(lists3 if r == "parents" else kids) for _, r in slots])
             for k, combo in enumerate(combos):
                 if tier == "quick" and k % 3:
                     continue
